@@ -1,9 +1,10 @@
 // Package time is the simulated twin of the standard time package for library
 // code that reads the clock: Now, Since, Until and Sleep use the simulator's
 // clock (advanced per executed statement and by seeded jumps, both part of
-// the plan); types, constants and pure functions are the real ones. Timers,
-// tickers and channels are not provided: code that uses them does not build
-// and the check answers "undecidable" (exit 2).
+// the plan); types, constants and pure functions are the real ones. Timers and
+// tickers are simulated, too (sim/rt/timer.go): they fire when the simulated
+// clock has reached their deadline, and when every task is blocked the clock
+// jumps to the earliest deadline.
 package time
 
 import (
@@ -85,3 +86,58 @@ func Parse(layout, value string) (Time, error)    { return rt.Parse(layout, valu
 func ParseDuration(s string) (Duration, error)    { return rt.ParseDuration(s) }
 func FixedZone(name string, offset int) *Location { return rt.FixedZone(name, offset) }
 func LoadLocation(name string) (*Location, error) { return rt.LoadLocation(name) }
+
+// ------------------------------------------------------------------ timers
+
+// Timer is a simulated time.Timer. C carries the fire time.
+type Timer struct {
+	C  *sim.Chan[Time]
+	st *sim.SimTimer
+}
+
+func sender(c *sim.Chan[Time]) func(now int64) {
+	return func(now int64) { c.TrySend(base.Add(Duration(now))) }
+}
+
+func NewTimer(d Duration) *Timer {
+	c := sim.NewChan[Time](1)
+	return &Timer{C: c, st: sim.NewSimTimer(int64(d), 0, nil, sender(c))}
+}
+
+func (t *Timer) Stop() bool { return t.st.Stop() }
+
+func (t *Timer) Reset(d Duration) bool { return t.st.Reset(int64(d)) }
+
+func After(d Duration) *sim.Chan[Time] { return NewTimer(d).C }
+
+func AfterFunc(d Duration, f func()) *Timer {
+	return &Timer{st: sim.NewSimTimer(int64(d), 0, f, nil)}
+}
+
+// Ticker is a simulated time.Ticker.
+type Ticker struct {
+	C  *sim.Chan[Time]
+	st *sim.SimTimer
+}
+
+func NewTicker(d Duration) *Ticker {
+	if d <= 0 {
+		panic("non-positive interval for NewTicker")
+	}
+	c := sim.NewChan[Time](1)
+	return &Ticker{C: c, st: sim.NewSimTimer(int64(d), int64(d), nil, sender(c))}
+}
+
+func (t *Ticker) Stop() { t.st.Stop() }
+
+func (t *Ticker) Reset(d Duration) {
+	t.st.Stop()
+	t.st = sim.NewSimTimer(int64(d), int64(d), nil, sender(t.C))
+}
+
+func Tick(d Duration) *sim.Chan[Time] {
+	if d <= 0 {
+		return nil
+	}
+	return NewTicker(d).C
+}
